@@ -25,4 +25,16 @@ Proof.
     { destruct (Z.leb_spec (j - U) i), (Z.leb_spec i (j + L)), (Z.gtb_spec (j - i) U), (Z.ltb_spec (j - i) (- L)); cbn; try reflexivity; lia. }
     rewrite E. destruct (negb _); [|reflexivity]. f_equal. f_equal. lia.
 Qed.
+
+(* symmetric matrix in either storage orientation times a vector: the triangle ?symv is told to read (after the wrapper's
+   exchange for row-major calls) is the one the symmetric engine stores, and its mirror is the engine's mirror *)
+Theorem symm_mv_correct (row_lower_col_upper : bool) (n : Z) (mem : Z -> T) (left_ptr left_offset x0 incx i : Z) :
+  adept_symm_mv O row_lower_col_upper n mem left_ptr left_offset x0 incx i = symm_mv_spec O row_lower_col_upper n mem left_ptr left_offset x0 incx i.
+Proof.
+  unfold adept_symm_mv, symm_mv_spec, f_symv_cell, symv_wrapper_uplo, symv_call_row_major, symv_uplo_of_orient, symv_lda.
+  apply (zsum_ext O). intros j Hj. f_equal. unfold symv_read, index.
+  destruct row_lower_col_upper; cbn [negb].
+  - destruct (Z.leb_spec i j), (Z.geb_spec i j); try (f_equal; lia). assert (i = j) by lia. subst. f_equal. lia.
+  - destruct (Z.leb_spec j i), (Z.leb_spec i j); try (f_equal; lia). assert (i = j) by lia. subst. f_equal. lia.
+Qed.
 End BandProofs.
